@@ -316,6 +316,10 @@ func (s *State) evalInternal(node any) object.Object { //nolint:funlen,gocognit,
 		if oerr != nil {
 			return *oerr
 		}
+		for i, e := range elements {
+			// Store values: a reference to an outer variable would keep changing with that variable.
+			elements[i] = object.Value(e)
+		}
 		return object.NewArray(elements)
 	case *ast.MapLiteral:
 		return s.evalMapLiteral(node)
